@@ -295,6 +295,26 @@ func execC05(c *Ctx) {
 			c.Reach("connected_only_via_stale_incarnation_record")
 		}
 	}
+	// Known finding C05/connected-only-via-one-directional-records (generalises the two above):
+	// no record that connects the two sides is mutual - one side lists the other, the other side
+	// holds the lister as dead. The side that holds the other dead never initiates contact; the
+	// listing side keeps its record only as long as no probe started during the faults fails after
+	// T_f (or any other suspicion arises), because the refutation is gossiped by a node that
+	// believes the suspecting node dead and reaches it only by chance.
+	if pre && sig == "" {
+		mutual := connectedBy(func(h *SimNode, peer string) bool {
+			owner := liveNames[peer]
+			if owner == nil || owner.m == nil {
+				return true
+			}
+			v := owner.view(h.name)
+			return v.Present && (v.State == StateAlive || v.State == StateSuspect)
+		})
+		if !mutual {
+			sig = "C05/connected-only-via-one-directional-records"
+			c.Reach("connected_only_via_one_directional_records")
+		}
+	}
 	converged := func() (bool, string) {
 		for _, n := range live {
 			got := n.m.Members()
